@@ -384,7 +384,7 @@ Print Assumptions C19_char_roundtrip.
 
 (* for string terminals without flags m_cp is the prefix test the C07 theorems assume of the regex oracle *)
 Theorem C19_m_cp_string :
-  forall t text p, tre t = false -> tflags t = [] -> m_cp t text p = str_match_at t text p.
+  forall t text p, tre t = false -> tflags t = [] -> m_cp t text p = str_match_at lower t text p.
 Proof. exact m_cp_str. Qed.
 Print Assumptions C19_m_cp_string.
 
